@@ -172,9 +172,15 @@ def prepare_fixed_decimal(data, schema):
     for digit in digits:
         unscaled_datum = (unscaled_datum * 10) + digit
 
+    if unscaled_datum == 0:
+        # negative zero is zero
+        sign = 0
+
     bits_req = unscaled_datum.bit_length() + 1
 
     size_in_bits = size * 8
+    if unscaled_datum > (1 << (size_in_bits - 1)) - (0 if sign else 1):
+        raise ValueError("The decimal value does not fit in the size of the fixed")
     offset_bits = size_in_bits - bits_req
 
     mask = 2**size_in_bits - 1
